@@ -77,6 +77,31 @@ def _badwrite(d, w):
     raise UndeclaredWrite()
 
 
+def _bad_psrc(d, w, seed=5.0):
+    w("ps_key", float(seed) * 2)
+    w("undeclared_key", 1.0)          # not among the declared injected keys -> UndeclaredWrite
+    return float(seed)
+
+
+def _write_then_boom(d, w, addend=1.0):
+    w("note", d + addend)
+    raise ModelProcessorError("VBoomError", incidental=False)
+
+
+def _ctx_write_then_boom(d, w, base=1.5):
+    w("scaled", base * 2)
+    raise ModelProcessorError("VBoomError", incidental=False)
+
+
+def _hooked(d, w, hk_scale=2.0):
+    w("hooked", hk_scale * 10)
+    return None
+
+
+# components that advertise the legacy get_required_keys() hook (the SER pre-check lists these keys as expected)
+HOOK_REQUIRED = {"VHookedCtx": ["hk_scale"]}
+
+
 def _addnote(d, w, addend=1.0):
     out = d + addend
     w("note", out)
@@ -210,6 +235,8 @@ _c("CopyDataProbe", "probe", "Any", None, [], lambda d, w: as_data_object(d), re
 # context processors
 _c("VCtxScale", "ctx", "Any", None, [("base", REQ), ("k", 3.0)], _ctxscale, created=("scaled",))
 _c("VCtxMeta", "ctx", "Any", None, [("vmeta", None)], lambda d, w, vmeta=None: None)
+_c("VHookedCtx", "ctx", "Any", None, [("hk_scale", 2.0)], _hooked, created=("hooked",))
+_c("VCtxWriteThenBoom", "ctx", "Any", None, [("base", 1.5)], _ctx_write_then_boom, created=("scaled",), fault="boom_after_write")
 _c("VCtxBadWriter", "ctx", "Any", None, [], _badwrite, created=("declared_only",), fault="undeclared_write")
 _c("VCtxBoom", "ctx", "Any", None, [("fuse", 1.0)], lambda d, w, fuse=1.0: _boom(d, w, fuse), fault="boom")
 _c("VCtxInterrupt", "ctx", "Any", None, [], _abort, fault="abort")
@@ -229,6 +256,8 @@ _c("VBadWriter", "op", "Float", "Float", [], _badwrite, created=("declared_only"
 _c("VBoom", "op", "Float", "Float", [("fuse", 1.0)], _boom, fault="boom")
 _c("VRaise", "op", "Float", "Float", [("exc", "zero_division")], lambda d, w, exc="zero_division": _raise_odd(exc), fault="raise")
 _c("VInterrupt", "op", "Float", "Float", [], _abort, fault="abort")
+_c("VWriteThenBoom", "op", "Float", "Float", [("addend", 1.0)], _write_then_boom, created=("note",), fault="boom_after_write")
+_c("VBadPayloadSrc", "psource", "NoData", "Float", [("seed", 5.0)], _bad_psrc, created=("ps_key",), fault="undeclared_write")
 _c("VBadType", "op", "Float", "Float", [], lambda d, w: [d], fault="badtype")
 
 _RE_RENAME = re.compile(r"^rename:(.+?):(.+)$")
